@@ -361,3 +361,181 @@ def creation_sites(prog, body):
                 if st["k"] == "assign" and st["rv"]["k"] == "agg" and st["rv"]["ak"] in ("closure", "coroutine", "coroutine_closure") and st["rv"].get("def") == body.path:
                     out.append((pb, pbi))
     return out
+
+
+# ---------------------------------------------------------------------------------------------
+# Interprocedural origins: see through crate-local helpers by substituting the helper's returned
+# origin (when it has a single non-error return shape) for the call, with parameters replaced by
+# the caller's arguments. Keeps rules robust against "extract a helper" refactorings.
+
+
+# Functions the rules name (effects are attached to calls of these): never inlined by expand().
+ANCHOR_FN_SUFFIXES = (
+    "log::create", "log::open", "utils::datafile_name", "utils::hintfile_name", "utils::timestamp", "utils::sorted_fileids",
+    "LogWriter::new", "LogWriter::append", "LogWriter::sync", "LogReader::new", "LogReader::at", "LogReader::copy_raw", "LogReader::segment",
+    "LogDir::new", "LogDir::read", "LogDir::copy", "LogIterator::new", "LogIterator::next",
+    "LogStatistics::add_live", "LogStatistics::add_dead", "LogStatistics::overwrite", "LogStatistics::fragmentation",
+    "Context::fileids_to_merge", "Context::can_merge", "Writer::write", "Writer::put", "Writer::delete", "Writer::merge",
+    "Writer::new_active_datafile", "Writer::sync", "Reader::get", "Handle::get", "Handle::put", "Handle::delete", "Handle::merge", "Handle::sync", "Handle::close",
+    "bitcask::rebuild_storage", "bitcask::populate_keydir_with_hintfile", "bitcask::populate_keydir_with_datafile",
+    "Frame::check", "Frame::parse", "Frame::check_nested", "Frame::parse_nested", "frame::get_line", "frame::get_integer", "frame::get_byte", "frame::peek_byte", "frame::skip",
+    "Connection::read_frame", "Connection::write_frame", "Connection::parse_frame", "Connection::new",
+    "Shutdown::new", "Shutdown::recv", "Shutdown::is_shutdown", "Command::apply", "Set::apply", "Get::apply", "Del::apply",
+)
+
+
+def is_anchor_fn(name):
+    return any(name == s or name.endswith("::" + s) for s in ANCHOR_FN_SUFFIXES)
+
+
+def _subst_args(o, amap, depth=0):
+    if depth > 60:
+        return o
+    k = o[0]
+    if k == "arg":
+        return amap.get(o[1], o)
+    if k in ("field", "variant"):
+        return (k, _subst_args(o[1], amap, depth + 1), o[2])
+    if k in ("index", "discr", "clone", "try", "promoted"):
+        return (k, _subst_args(o[1], amap, depth + 1))
+    if k == "cast":
+        return ("cast", _subst_args(o[1], amap, depth + 1), o[2] if len(o) > 2 else None)
+    if k == "var":
+        if o[3] is not None:
+            return ("var", o[1], o[2], _subst_args(o[3], amap, depth + 1))
+        return o
+    if k == "call":
+        return ("call", o[1], [_subst_args(a, amap, depth + 1) for a in o[2]], o[3])
+    if k == "agg":
+        return ("agg", o[1], o[2], o[3], {f: _subst_args(v, amap, depth + 1) for f, v in o[4].items()})
+    if k == "bin":
+        return ("bin", o[1], _subst_args(o[2], amap, depth + 1), _subst_args(o[3], amap, depth + 1))
+    if k == "un":
+        return ("un", o[1], _subst_args(o[2], amap, depth + 1))
+    return o
+
+
+def helper_return_origin(prog, cb, memo):
+    """origin of the value a crate-local helper returns on success, if all its non-error returns
+    share one defining statement; the Result/Option wrapper is kept (an ('agg', .., 'Ok', {0: x}))."""
+    if cb.path in memo:
+        return memo[cb.path]
+    memo[cb.path] = None
+    if cb.coroutine or cb.def_kind == "Closure":
+        return None
+    rets = [(c, d) for c, d, rb in ret_classes(cb, 0, lambda e: e.kind == "unwind") if c not in ("err", "unwind")]
+    defs = {d for c, d in rets}
+    if len(defs) != 1 or None in defs:
+        return None
+    o = ret_origin(cb, list(defs)[0])
+    memo[cb.path] = o
+    return o
+
+
+def expand(prog, o, memo=None, depth=0):
+    """rebuild origin o with crate-local helper calls replaced by what they return"""
+    memo = memo if memo is not None else {}
+    if depth > 12:
+        return o
+    k = o[0]
+    if k == "call":
+        args = [expand(prog, a, memo, depth + 1) for a in o[2]]
+        site = o[3]
+        sb = prog.bodies.get(site[0]) if site else None
+        if sb is not None:
+            t = sb.term(site[1])
+            cb = prog.callee_body(t) if t and t["k"] == "call" else None
+            if cb is not None and cb.path != site[0] and not is_anchor_fn(cb.name):
+                ro = helper_return_origin(prog, cb, memo.setdefault("__ret__", {}))
+                if ro is not None and cb.params:
+                    amap = {}
+                    for i, pn in enumerate(cb.params):
+                        if pn is not None and i < len(args):
+                            amap[pn] = args[i]
+                    return expand(prog, _subst_args(ro, amap), memo, depth + 1)
+        return ("call", o[1], args, o[3])
+    if k == "try":
+        inner = expand(prog, o[1], memo, depth + 1)
+        return ("try", inner)
+    if k == "variant":
+        base = expand(prog, o[1], memo, depth + 1)
+        pb = peel_var(base)
+        if pb[0] == "try":
+            pb2 = peel_var(pb[1])
+            if pb2[0] == "agg" and pb2[3] in ("Ok", "Some") and o[2] == "Continue":
+                return ("payload", pb2)
+        if pb[0] == "agg" and pb[3] == o[2]:
+            return ("payload", pb)
+        return ("variant", base, o[2])
+    if k == "field":
+        base = expand(prog, o[1], memo, depth + 1)
+        if base[0] == "payload":
+            agg = base[1]
+            if o[2] in agg[4]:
+                return agg[4][o[2]]
+        pb = peel_var(base)
+        if pb[0] == "agg" and o[2] in pb[4]:
+            return pb[4][o[2]]
+        return ("field", base, o[2])
+    if k == "var":
+        if o[3] is not None:
+            return ("var", o[1], o[2], expand(prog, o[3], memo, depth + 1))
+        return o
+    if k in ("index", "discr", "clone", "promoted"):
+        return (k, expand(prog, o[1], memo, depth + 1))
+    if k == "cast":
+        return ("cast", expand(prog, o[1], memo, depth + 1), o[2] if len(o) > 2 else None)
+    if k == "agg":
+        return ("agg", o[1], o[2], o[3], {f: expand(prog, v, memo, depth + 1) for f, v in o[4].items()})
+    if k == "bin":
+        return ("bin", o[1], expand(prog, o[2], memo, depth + 1), expand(prog, o[3], memo, depth + 1))
+    if k == "un":
+        return ("un", o[1], expand(prog, o[2], memo, depth + 1))
+    return o
+
+
+# ---------------------------------------------------------------------------------------------
+# who-may-call through helpers: a site in family F counts as being "in" an allowed family when F is
+# a crate-local function all of whose callers (transitively, bounded) are allowed families.
+
+
+def caller_families(prog, root_path):
+    out = set()
+    fam_bodies = {b.path for b in prog.families.get(root_path, [])}
+    for b in prog.bodies.values():
+        if b.test:
+            continue
+        for bi, t in b.calls():
+            cb = prog.callee_body(t)
+            if cb is not None and cb.path == root_path and b.path not in fam_bodies:
+                out.add(strip_generics(b.root))
+    return out
+
+
+def in_allowed_family(prog, body, allowed, depth=0, seen=None):
+    """allowed: set of generic-stripped family names"""
+    f = strip_generics(body.root)
+    if f in allowed:
+        return True
+    if depth >= 3:
+        return False
+    seen = seen or set()
+    if f in seen:
+        return False
+    seen = seen | {f}
+    root = prog.bodies.get(body.root)
+    if root is None or root.def_kind not in ("Fn", "AssocFn"):
+        return False
+    if prog.fnsigs.get(body.root, {}).get("exported", True):
+        return False  # reachable from outside the crate: its callers cannot be enumerated
+    callers = caller_families(prog, body.root)
+    if not callers:
+        return False
+    for c in callers:
+        roots = [r for r in prog.families if strip_generics(r) == c]
+        if not roots:
+            return False
+        cb = prog.bodies.get(roots[0])
+        if cb is None or not in_allowed_family(prog, cb, allowed, depth + 1, seen):
+            return False
+    return True
